@@ -126,6 +126,16 @@ def _collapse_postconditions(
     return base_postconditions + postconditions
 
 
+def _has_member(base: type, key: str) -> bool:
+    """
+    Check that the class ``base`` or one of its ancestors defines the member ``key``.
+
+    In contrast to ``hasattr``, the attributes which the class merely obtains from its meta-class
+    (such as ``__call__``, ``mro`` or ``register``) are not members of its instances and do not count.
+    """
+    return any(key in vars(klass) for klass in base.__mro__)
+
+
 def _decorate_namespace_function(
     bases: List[type], namespace: MutableMapping[str, Any], key: str
 ) -> None:
@@ -164,7 +174,7 @@ def _decorate_namespace_function(
 
         bases_have_func = False
         for base in bases:
-            if hasattr(base, key):
+            if _has_member(base, key):
                 bases_have_func = True
 
                 # Check if there is a checker function in the base class
@@ -243,7 +253,7 @@ def _decorate_namespace_property(
 
         bases_have_func = False
         for base in bases:
-            if hasattr(base, key):
+            if _has_member(base, key):
                 base_property = getattr(base, key)
                 assert isinstance(
                     base_property, property
